@@ -409,6 +409,42 @@ theorem scanDq_length : ∀ (n : Nat) (cs : List Char), cs.length ≤ n → ∀ 
             have := ih cs (by simp only [List.length_cons] at hn; omega) s' r' hs
             rw [← h.2]; simp only [List.length_cons]; omega
 
+theorem scanDq_suffix : ∀ (n : Nat) (cs : List Char), cs.length ≤ n → ∀ (s : List QItem) (r : List Char),
+    scanDq cs = some (s, r) → r <:+ cs := by
+  intro n
+  induction n with
+  | zero =>
+    intro cs hn s r h
+    have : cs = [] := List.eq_nil_of_length_eq_zero (by omega)
+    subst this; simp [scanDq] at h
+  | succ n ih =>
+    intro cs hn s r h
+    cases cs with
+    | nil => simp [scanDq] at h
+    | cons c cs =>
+      unfold scanDq at h
+      split at h
+      · simp only [Option.some.injEq, Prod.mk.injEq] at h
+        rw [← h.2]; exact List.suffix_cons c cs
+      · split at h
+        · split at h
+          · cases h
+          · rename_i e r0
+            cases hs : scanDq r0 with
+            | none => simp [hs] at h
+            | some p =>
+              obtain ⟨s', r'⟩ := p
+              simp only [hs, Option.map_some, Option.some.injEq, Prod.mk.injEq] at h
+              have := ih r0 (by simp only [List.length_cons] at hn; omega) s' r' hs
+              rw [← h.2]; exact this.trans ((List.suffix_cons e r0).trans (List.suffix_cons c _))
+        · cases hs : scanDq cs with
+          | none => simp [hs] at h
+          | some p =>
+            obtain ⟨s', r'⟩ := p
+            simp only [hs, Option.map_some, Option.some.injEq, Prod.mk.injEq] at h
+            have := ih cs (by simp only [List.length_cons] at hn; omega) s' r' hs
+            rw [← h.2]; exact this.trans (List.suffix_cons c cs)
+
 theorem dropWhile_length_le {α : Type} (p : α → Bool) (l : List α) : (l.dropWhile p).length ≤ l.length := by
   induction l with
   | nil => simp
@@ -698,6 +734,187 @@ theorem tokenize_nl (text : List Char) : tokenize (text ++ ['\n']) = tokenize te
   unfold tokenize
   rw [List.length_append, List.length_cons, List.length_nil, Nat.zero_add, tokensAux_nl]
   exact tokensAux_fuel text.length (text.length + 1) text (Nat.le_refl _)
+
+/-! ## a token's offset is where its first character stands -/
+
+/-- what `skipGround` leaves is a tail of the text -/
+theorem skipGround_suffix : ∀ (n : Nat) (cs : List Char), cs.length ≤ n → ∀ r, skipGround cs = some r → r <:+ cs := by
+  intro n
+  induction n using Nat.strongRecOn with
+  | _ n ih =>
+    intro cs hn r h
+    cases cs with
+    | nil => rw [skipGround] at h; injection h with h; rw [← h]; exact List.suffix_refl _
+    | cons c cs' =>
+      simp only [List.length_cons] at hn
+      by_cases hsp : isSpace c = true
+      · rw [skipGround, if_pos hsp] at h
+        exact (ih cs'.length (by omega) cs' (Nat.le_refl _) r h).trans (List.suffix_cons c cs')
+      · have hsp' : isSpace c = false := by simpa using hsp
+        by_cases hc : c = '/'
+        · subst hc
+          rw [skipGround_slash] at h
+          cases cs' with
+          | nil => rw [afterSlash] at h; injection h with h; rw [← h]; exact List.suffix_refl _
+          | cons d r1 =>
+            by_cases hd1 : d = '/'
+            · subst hd1
+              rw [afterSlash_line] at h
+              by_cases hnl : '\n' ∈ r1
+              · obtain ⟨s0, r2, hr1, hs0⟩ := split_first_nl r1 hnl
+                rw [hr1, skipLine_found s0 r2 hs0] at h
+                have h1 := ih r2.length (by
+                  rw [hr1] at hn; simp only [List.length_cons, List.length_append] at hn; omega) r2 (Nat.le_refl _) r h
+                refine h1.trans ?_
+                rw [hr1]
+                exact ⟨'/' :: '/' :: (s0 ++ ['\n']), by simp⟩
+              · rw [skipLine_none r1 hnl] at h
+                injection h with h; rw [← h]
+                exact List.nil_suffix
+            · by_cases hd2 : d = '*'
+              · subst hd2
+                rw [afterSlash_block] at h
+                cases hf : findSS r1 with
+                | none => rw [skipBlock_none r1 hf] at h; cases h
+                | some p =>
+                  obtain ⟨s0, r2⟩ := p
+                  rw [skipBlock_found r1 s0 r2 hf] at h
+                  have hsp2 := findSS_split r1.length r1 (Nat.le_refl _) s0 r2 hf
+                  have h1 := ih r2.length (by
+                    rw [hsp2] at hn; simp only [List.length_cons, List.length_append] at hn; omega) r2 (Nat.le_refl _) r h
+                  refine h1.trans ?_
+                  rw [hsp2]
+                  exact ⟨'/' :: '*' :: (s0 ++ ['*', '/']), by simp⟩
+              · rw [afterSlash_token (d :: r1) (fun c' r' he => by
+                  simp only [List.cons.injEq] at he; rw [← he.1]; exact ⟨hd1, hd2⟩)] at h
+                injection h with h; rw [← h]; exact List.suffix_refl _
+        · rw [skipGround_token c cs' hsp' hc] at h
+          injection h with h; rw [← h]; exact List.suffix_refl _
+
+/-- the offset of a token is the number of characters before its first character, and an unquoted
+token (every keyword is one) is not empty and is the text from there up to the next delimiter -/
+theorem specNext_off (text pre cs : List Char) (ht : text = pre ++ cs) (t : PTok) (rest : List Char)
+    (h : specNext text.length cs = some (some (t, rest))) :
+    ∃ pre', text = pre' ++ rest ∧ rest <:+ cs ∧ t.off < text.length ∧
+      ∀ s, t.tok = .unq s → s ≠ [] ∧ s = (text.drop t.off).takeWhile (fun x => !isDelim x) := by
+  unfold specNext at h
+  cases hg : skipGround cs with
+  | none => rw [hg] at h; simp [specNextG] at h
+  | some l =>
+    rw [hg] at h
+    have hsx := skipGround_suffix cs.length cs (Nat.le_refl _) l hg
+    obtain ⟨_, hhead⟩ := skipGround_le cs.length cs (Nat.le_refl _) l hg
+    cases l with
+    | nil => simp [specNextG] at h
+    | cons c r =>
+      obtain ⟨sk, hsk⟩ := hsx
+      have htext : text = (pre ++ sk) ++ c :: r := by rw [ht, ← hsk]; simp
+      have hoff : text.length - (r.length + 1) = (pre ++ sk).length := by
+        rw [htext]; simp only [List.length_append, List.length_cons]; omega
+      have hdrop : text.drop (pre ++ sk).length = c :: r := by rw [htext, List.drop_left']; rfl
+      have hlt : (pre ++ sk).length < text.length := by
+        rw [htext]; simp only [List.length_append, List.length_cons]; omega
+      have hcs := hhead c r rfl
+      have fin : ∀ (tk : Tok) (rest' : List Char), rest' <:+ r → (∀ s, tk ≠ .unq s) →
+          (⟨tk, text.length - (r.length + 1)⟩, rest') = (t, rest) →
+          ∃ pre', text = pre' ++ rest ∧ rest <:+ cs ∧ t.off < text.length ∧
+            ∀ s, t.tok = .unq s → s ≠ [] ∧ s = (text.drop t.off).takeWhile (fun x => !isDelim x) := by
+        intro tk rest' hr hnu he
+        simp only [Prod.mk.injEq] at he
+        obtain ⟨a, ha⟩ := hr
+        refine ⟨pre ++ sk ++ (c :: a), ?_, ?_, ?_, ?_⟩
+        · rw [← he.2, htext, ← ha]; simp
+        · rw [← he.2, ← hsk, ← ha]; exact ⟨sk ++ c :: a, by simp⟩
+        · rw [← he.1]; simp only; rw [hoff]; exact hlt
+        · intro s hs; rw [← he.1] at hs; exact absurd hs (hnu s)
+      unfold specNextG at h
+      simp only at h
+      split at h
+      · simp only [Option.some.injEq] at h
+        exact fin .semi r (List.suffix_refl _) (fun s h => by cases h) h
+      · split at h
+        · simp only [Option.some.injEq] at h
+          exact fin .lbrace r (List.suffix_refl _) (fun s h => by cases h) h
+        · split at h
+          · simp only [Option.some.injEq] at h
+            exact fin .rbrace r (List.suffix_refl _) (fun s h => by cases h) h
+          · split at h
+            · cases hs : scanSq r with
+              | none => simp [hs] at h
+              | some p =>
+                obtain ⟨s0, r'⟩ := p
+                simp only [hs, Option.some.injEq] at h
+                obtain ⟨hsp, _⟩ := scanSq_split r s0 r' hs
+                exact fin (.sq s0) r' ⟨s0 ++ ['\''], by rw [hsp]; simp⟩ (fun s h => by cases h) h
+            · split at h
+              · cases hs : scanDq r with
+                | none => simp [hs] at h
+                | some p =>
+                  obtain ⟨s0, r'⟩ := p
+                  simp only [hs, Option.some.injEq] at h
+                  have hl := scanDq_length r.length r (Nat.le_refl _) s0 r' hs
+                  have hsuf : r' <:+ r := by
+                    -- the raw text and the closing quote precede `r'`
+                    have := scanDq_suffix r.length r (Nat.le_refl _) s0 r' hs
+                    exact this
+                  exact fin (.dq s0) r' hsuf (fun s h => by cases h) h
+              · rename_i h1 h2 h3 h4 h5
+                simp only [Option.some.injEq, Prod.mk.injEq] at h
+                have hnd : isDelim c = false := by simp [isDelim, hcs, h1, h2, h3, h4, h5]
+                obtain ⟨D, hD⟩ : ∃ D, D = (c :: r).dropWhile (fun x => !isDelim x) := ⟨_, rfl⟩
+                obtain ⟨a, ha⟩ : D <:+ c :: r := by rw [hD]; exact List.dropWhile_suffix _
+                rw [← hD] at h
+                refine ⟨pre ++ sk ++ a, ?_, ?_, ?_, ?_⟩
+                · rw [← h.2, htext, ← ha]; simp
+                · rw [← h.2, ← hsk, ← ha]; exact ⟨sk ++ a, by simp⟩
+                · rw [← h.1]; simp only; rw [hoff]; exact hlt
+                · intro s hs
+                  rw [← h.1] at hs
+                  simp only [Tok.unq.injEq] at hs
+                  rw [← hs, ← h.1]
+                  simp only
+                  rw [hoff, hdrop]
+                  refine ⟨?_, rfl⟩
+                  simp [hnd]
+
+theorem tokensAux_keyword_start (text : List Char) : ∀ (f : Nat) (pre cs : List Char) (toks : List PTok),
+    text = pre ++ cs → tokensAux text.length f cs = some toks →
+    ∀ t ∈ toks, t.off < text.length ∧
+      ∀ s, t.tok = .unq s → s ≠ [] ∧ s = (text.drop t.off).takeWhile (fun x => !isDelim x) := by
+  intro f
+  induction f with
+  | zero => intro pre cs toks _ h; simp [tokensAux] at h
+  | succ f ih =>
+    intro pre cs toks ht h
+    rw [tokensAux_succ] at h
+    cases hs : specNext text.length cs with
+    | none => rw [hs] at h; cases h
+    | some o =>
+      cases o with
+      | none => rw [hs] at h; injection h with h; rw [← h]; intro t htm; cases htm
+      | some p =>
+        obtain ⟨t0, r⟩ := p
+        rw [hs] at h
+        simp only at h
+        obtain ⟨pre', hp', _, hlt, hunq⟩ := specNext_off text pre cs ht t0 r hs
+        cases hr : tokensAux text.length f r with
+        | none => rw [hr] at h; cases h
+        | some ts =>
+          rw [hr] at h
+          simp only [Option.map_some, Option.some.injEq] at h
+          rw [← h]
+          intro t htm
+          simp only [List.mem_cons] at htm
+          rcases htm with htm | htm
+          · rw [htm]; exact ⟨hlt, hunq⟩
+          · exact ih pre' r ts hp' hr t htm
+
+/-- every token of a text starts inside the text, and an unquoted one is the non-empty run of
+characters from its offset up to the next delimiter -/
+theorem tokenize_keyword_start (text : List Char) (toks : List PTok) (h : tokenize text = some toks) :
+    ∀ t ∈ toks, t.off < text.length ∧
+      ∀ s, t.tok = .unq s → s ≠ [] ∧ s = (text.drop t.off).takeWhile (fun x => !isDelim x) :=
+  tokensAux_keyword_start text _ [] text toks rfl h
 
 /-! ## positions depend on the text before the offset only -/
 
